@@ -45,32 +45,42 @@ theorem passes_spec (old : Mem) (c : Cache) (args : List Arg) (pos : Nat) (h : w
 
 /-! ### sanitiser -/
 
-theorem sanitize_eq_flatMap (p : Printable) (s : Bytes) : sanitize p s = s.flatMap (sanitizeByte p) := by
-  unfold sanitize
+theorem sanitizeBy_eq_flatMap (ok : UInt8 → Bool) (s : Bytes) : sanitizeBy ok s = s.flatMap (sanitizeByteBy ok) := by
+  unfold sanitizeBy
   split
   · rename_i h
     induction s with
     | nil => rfl
     | cons b bs ih =>
       simp only [List.all_cons, Bool.and_eq_true] at h
-      simp only [List.flatMap_cons, sanitizeByte, h.1, if_true, List.singleton_append]
+      simp only [List.flatMap_cons, sanitizeByteBy, h.1, if_true, List.singleton_append]
       rw [← ih h.2]
   · rfl
 
-theorem flatMap_id_of_all (p : Printable) : ∀ (s : Bytes), s.all p.ok = true → s.flatMap (sanitizeByte p) = s
+theorem flatMapBy_id_of_all (ok : UInt8 → Bool) : ∀ (s : Bytes), s.all ok = true → s.flatMap (sanitizeByteBy ok) = s
   | [], _ => rfl
   | b :: bs, h => by
     simp only [List.all_cons, Bool.and_eq_true] at h
-    simp only [List.flatMap_cons, sanitizeByte, h.1, if_true, List.singleton_append, flatMap_id_of_all p bs h.2]
+    simp only [List.flatMap_cons, sanitizeByteBy, h.1, if_true, List.singleton_append, flatMapBy_id_of_all ok bs h.2]
 
 theorem escape_length (b : UInt8) : (escape b).length = 4 := rfl
 
-theorem flatMap_length (p : Printable) : ∀ (s : Bytes),
-    (s.flatMap (sanitizeByte p)).length = s.length + 3 * (s.filter (fun b => !p.ok b)).length
+theorem flatMapBy_length (ok : UInt8 → Bool) : ∀ (s : Bytes),
+    (s.flatMap (sanitizeByteBy ok)).length = s.length + 3 * (s.filter (fun b => !ok b)).length
   | [] => rfl
   | b :: bs => by
-    simp only [List.flatMap_cons, List.length_append, List.length_cons, flatMap_length p bs, List.filter_cons]
-    cases h : p.ok b <;> simp [sanitizeByte, h, escape_length] <;> omega
+    simp only [List.flatMap_cons, List.length_append, List.length_cons, flatMapBy_length ok bs, List.filter_cons]
+    cases h : ok b <;> simp [sanitizeByteBy, h, escape_length] <;> omega
+
+theorem sanitize_eq_flatMap (p : Printable) (s : Bytes) : sanitize p s = s.flatMap (sanitizeByte p) :=
+  sanitizeBy_eq_flatMap p.ok s
+
+theorem flatMap_id_of_all (p : Printable) (s : Bytes) (h : s.all p.ok = true) : s.flatMap (sanitizeByte p) = s :=
+  flatMapBy_id_of_all p.ok s h
+
+theorem flatMap_length (p : Printable) (s : Bytes) :
+    (s.flatMap (sanitizeByte p)).length = s.length + 3 * (s.filter (fun b => !p.ok b)).length :=
+  flatMapBy_length p.ok s
 
 /-- `"0123456789ABCDEF"` -/
 def hexDigitsUpper : List UInt8 := [48, 49, 50, 51, 52, 53, 54, 55, 56, 57, 65, 66, 67, 68, 69, 70]
